@@ -140,7 +140,24 @@ class Ctx:
                 for i in range(nshards)]
         mp = multiprocessing.get_context("fork")
         with mp.Pool(min(nshards, os.cpu_count() or 1)) as pool:
-            for res in pool.imap_unordered(_shard_entry, jobs):
+            it = pool.imap_unordered(_shard_entry, jobs)
+            got = 0
+            while got < len(jobs):
+                # watchdog: shards stop by themselves at the budget; a shard stuck inside one case
+                # (never a violation: "inconclusive") is abandoned at twice the budget
+                wait = None
+                if self.budget_s is not None:
+                    wait = max(5.0, self.t0 + 2 * self.budget_s - time.time())
+                try:
+                    res = it.next(timeout=wait)
+                except multiprocessing.TimeoutError:
+                    pool.terminate()
+                    self.timed_out = True
+                    self.extra["abandoned_shards"] = self.extra.get("abandoned_shards", 0) + len(jobs) - got
+                    print("note: %d shard(s) abandoned at twice the time budget (inconclusive, not a violation)"
+                          % (len(jobs) - got))
+                    break
+                got += 1
                 if "harness_error" in res:
                     raise HarnessError(res["harness_error"])
                 self.merge(res)
